@@ -1,4 +1,4 @@
-use codespan_reporting::files::{Files, SimpleFile};
+use codespan_reporting::files::SimpleFile;
 use lsp_types::{Location, Url};
 
 use crate::frontend::lexer::Token;
@@ -103,15 +103,9 @@ fn lookup_parser_impl_definition(
     let file = SimpleFile::new(parser_path.to_str()?, source.as_str());
     source
         .find(&format!("fn {kind}_{rule_name}_{number}"))
-        .and_then(|offset| file.location((), offset).ok())
-        .map(|loc| {
-            let pos = lsp_types::Position::new(
-                (loc.line_number - 1) as u32,
-                (loc.column_number - 1) as u32,
-            );
-            Location {
-                uri,
-                range: lsp_types::Range::new(pos, pos),
-            }
+        .map(|offset| Location {
+            uri,
+            // converts the byte offset to a line and a UTF-16 character offset
+            range: super::compat::span_to_range(&file, &(offset..offset)),
         })
 }
